@@ -110,3 +110,28 @@ Qed.
 
 Lemma total_refuted : forall T t, total_okb T t = false -> ~ total_agrees T t.
 Proof. intros T t H Ht. rewrite (total_okb_complete _ _ Ht) in H. discriminate. Qed.
+
+(* The boolean oracles DECIDE the specification (both directions), and the diagnostics list the
+   check prints its witnesses from is empty exactly when the enumeration succeeds. *)
+Lemma oracles_decide_spec : forall T,
+  (forall g, offset_okb T g = true <-> field_offset_agrees T g) /\
+  (forall g, size_okb T g = true <-> field_size_agrees T g) /\
+  (forall t, total_okb T t = true <-> total_agrees T t).
+Proof.
+  intro T. repeat split.
+  - apply offset_okb_sound. - apply offset_okb_complete.
+  - apply size_okb_sound. - apply size_okb_complete.
+  - apply total_okb_sound. - apply total_okb_complete.
+Qed.
+
+Lemma bad_from_nil_iff : forall {A} (f : A -> bool) l i, bad_from f l i = [] <-> forallb f l = true.
+Proof.
+  intros A f l. induction l as [|x l IH]; intro i; simpl.
+  - tauto.
+  - destruct (f x); simpl.
+    + apply IH.
+    + split; discriminate.
+Qed.
+
+Lemma bad_nil_iff : forall {A} (f : A -> bool) l, bad f l = [] <-> forallb f l = true.
+Proof. intros. apply bad_from_nil_iff. Qed.
